@@ -12,6 +12,7 @@ Model assumptions used: a write to the temp file is all-or-error (short writes a
 error, `execFail`), `rename` is atomic.
 -/
 import Cacache.Lemmas.Commit
+import Cacache.Lemmas.Audit
 
 namespace Cacache.C03
 open Prog
@@ -53,8 +54,10 @@ theorem insert_content_valid_crash (key : Bytes) (o : WriteOpts) (fs : FS)
 theorem empty_valid : ContentValid cfg cache FS.empty := by
   intro a hexd b _ h; simp [FS.empty] at h
 
-/-- Only one call of a write can create a file at a content address: the `rename` of the temp
-file (every other call's file targets are outside the content area). -/
+/-- A classification of single calls (NOT yet a statement about the write programs — that is
+`writeStream_only_rename_publishes` below): a call that has a content address among its file
+targets is a `rename` / `hardLink` / `reflink` onto it, a copy, a `mkTemp`, or one of the
+in-place file calls aimed at the address itself. -/
 theorem only_rename_publishes (c : Call) (fs : FS) (q : Path) (hq : q ∈ c.fileTargets fs)
     (ha : IsAddr cache q) :
     (∃ s, c = .rename s q) ∨ (∃ s, c = .hardLink s q) ∨ (∃ s, c = .reflink s q) ∨
@@ -74,5 +77,148 @@ theorem only_rename_publishes (c : Call) (fs : FS) (q : Path) (hq : q ∈ c.file
     | exact Or.inr (Or.inr (Or.inr (Or.inr (Or.inr (Or.inr (Or.inr (Or.inl ⟨_, rfl, ha⟩)))))))
     | exact Or.inr (Or.inr (Or.inr (Or.inr (Or.inr (Or.inr (Or.inr (Or.inr (Or.inl ⟨_, _, rfl, ha⟩))))))))
     | exact Or.inr (Or.inr (Or.inr (Or.inr (Or.inr (Or.inr (Or.inr (Or.inr (Or.inr ⟨_, rfl⟩))))))))
+
+/-! ### the program-level statement -/
+
+/-- The only way the call can create or change a regular file anywhere in the content area
+`<cache>/content-v2/…` is by being a `rename` onto that path. -/
+def PublishesOnlyByRename (c : Call) : Prop :=
+  ∀ fs q, q ∈ c.fileTargets fs → InArea cache dContent q → ∃ s, c = .rename s q
+
+/-- A call all of whose targets lie in areas other than the content area has no file target in
+the content area at all. -/
+theorem inAreas_publishesOnlyByRename {tops : List Bytes} {c : Call}
+    (h : c.inAreas cache tops) (hn : dContent ∉ tops) : PublishesOnlyByRename cache c := by
+  intro fs q hq ha
+  exfalso
+  have key : ∀ p, p ∈ c.targets → p <+: q → False := by
+    intro p hp hpq
+    obtain ⟨top, ht, hin⟩ := h.mem p hp
+    have := inArea_disjoint (inArea_ext hin hpq) ha
+    exact hn (this ▸ ht)
+  cases c with
+  | copyFile s d => exact h.notCopy s d rfl
+  | mkTemp dir =>
+    simp only [Call.fileTargets, List.mem_singleton] at hq
+    exact key dir (by simp [Call.targets]) (by rw [hq]; exact List.prefix_append _ _)
+  | fallocate p n =>
+    simp only [Call.fileTargets, List.mem_singleton] at hq
+    exact key p (by simp [Call.targets]) (by rw [hq]; exact List.prefix_refl _)
+  | writeAt p o d =>
+    simp only [Call.fileTargets, List.mem_singleton] at hq
+    exact key p (by simp [Call.targets]) (by rw [hq]; exact List.prefix_refl _)
+  | truncate p n =>
+    simp only [Call.fileTargets, List.mem_singleton] at hq
+    exact key p (by simp [Call.targets]) (by rw [hq]; exact List.prefix_refl _)
+  | openAppend p =>
+    simp only [Call.fileTargets, List.mem_singleton] at hq
+    exact key p (by simp [Call.targets]) (by rw [hq]; exact List.prefix_refl _)
+  | appendWrite p d =>
+    simp only [Call.fileTargets, List.mem_singleton] at hq
+    exact key p (by simp [Call.targets]) (by rw [hq]; exact List.prefix_refl _)
+  | rename s d =>
+    simp only [Call.fileTargets, List.mem_singleton] at hq
+    exact key d (by simp [Call.targets]) (by rw [hq]; exact List.prefix_refl _)
+  | hardLink s d =>
+    simp only [Call.fileTargets, List.mem_singleton] at hq
+    exact key d (by simp [Call.targets]) (by rw [hq]; exact List.prefix_refl _)
+  | reflink s d =>
+    simp only [Call.fileTargets, List.mem_singleton] at hq
+    exact key d (by simp [Call.targets]) (by rw [hq]; exact List.prefix_refl _)
+  | _ => simp [Call.fileTargets] at hq
+
+/-- Publishing (`close`): the one call with a file target in the content area is the rename of
+the temp file. -/
+theorem wclose_only_rename_publishes (w : Writer) (hw : w.Ok) :
+    AllCalls (PublishesOnlyByRename w.cache) (wclose cfg w) := by
+  have htmp := hw.inArea
+  have hno : ∀ q, q = w.tmp → InArea w.cache dContent q → False := by
+    intro q hq ha; subst hq
+    exact dTmp_ne_dContent (inArea_disjoint htmp ha)
+  unfold wclose dropTmp
+  repeat' ac_step
+  all_goals first
+    | exact trivial
+    | (intro fs q hq ha
+       simp only [Call.fileTargets, List.mem_singleton, List.not_mem_nil] at hq
+       all_goals first
+         | exact (hno q hq ha).elim
+         | exact ⟨_, by rw [hq]⟩)
+
+theorem wcommit_only_rename_publishes (w : Writer) (hw : w.Ok) :
+    AllCalls (PublishesOnlyByRename w.cache) (wcommit cfg w) := by
+  unfold wcommit wcommitCheck
+  simp only [bind_eq, pure_eq]
+  apply AllCallsR.bind (p := Prog.bind (wclose cfg w) _) (Ok := fun _ => True)
+  · apply AllCallsR.bind (wclose_only_rename_publishes cfg w hw)
+    intro r _
+    split
+    · trivial
+    · split <;> trivial
+  · intro r _
+    split
+    · trivial
+    · unfold wcommitIndex
+      split
+      · exact (insert_areas cfg _ _ _).mono
+          (fun c h => inAreas_publishesOnlyByRename w.cache h (by decide)) (fun _ h => h)
+      · trivial
+
+/-- **Only the rename of a write creates a file in the content area.**  Of all the calls a whole
+write can issue — any flavour, key, options, chunking, and whatever the calls answer (so every
+on-disk state, fault plan and interleaving) — the only ones that can create or change a regular
+file at a path in `<cache>/content-v2/` are `rename`s onto that path (the publication of the
+finished temp file by `close`). -/
+theorem writeStream_only_rename_publishes (fl : Flavour) (key : Option Bytes) (o : WriteOpts)
+    (chunks : List Bytes) :
+    AllCalls (PublishesOnlyByRename cache) (writeStream cfg cache fl key o chunks) := by
+  have hT : ∀ c, c.inAreas cache [dTmp] → PublishesOnlyByRename cache c :=
+    fun c h => inAreas_publishesOnlyByRename cache h (by decide)
+  have hI : ∀ c, c.inAreas cache [dIndex] → PublishesOnlyByRename cache c :=
+    fun c h => inAreas_publishesOnlyByRename cache h (by decide)
+  unfold writeStream
+  simp only [bind_eq, pure_eq]
+  apply AllCallsR.bind (((wopen_areas cfg fl cache key o).and (wopen_within cfg fl cache key o)).mono
+    (fun c h => hT c h.1) (fun _ h => h.2))
+  intro r hr
+  split
+  · trivial
+  · rename_i w
+    obtain ⟨hc, hw⟩ := hr w rfl
+    subst hc
+    apply AllCallsR.bind ((wwriteAll_areas w chunks hw).mono hT (fun _ h => h))
+    intro r2 hr2
+    split
+    · apply AllCallsR.bind ((dropTmp_areas _ _ hw.inArea).mono hT (fun _ h => h))
+      intro _ _; trivial
+    · rename_i w'
+      have hs := hr2 w' rfl
+      have := wcommit_only_rename_publishes cfg w' (hs.ok hw)
+      rw [hs.1] at this
+      exact this
+
+theorem write_only_rename_publishes (fl : Flavour) (algo : Algo) (key data : Bytes) :
+    AllCalls (PublishesOnlyByRename cache) (write cfg fl cache algo key data) := by
+  rw [write_eq_stream]; exact writeStream_only_rename_publishes cfg cache _ _ _ _
+
+theorem writeHash_only_rename_publishes (fl : Flavour) (algo : Algo) (data : Bytes) :
+    AllCalls (PublishesOnlyByRename cache) (writeHash cfg fl cache algo data) := by
+  rw [writeHash_eq_stream]; exact writeStream_only_rename_publishes cfg cache _ _ _ _
+
+/-- Read on the calls of any run, healthy or faulty: a call of a write that has a content
+address among its file targets is a `rename` onto it. -/
+theorem write_trace_only_rename_publishes (fl : Flavour) (key : Option Bytes) (o : WriteOpts)
+    (chunks : List Bytes) (fs : FS) (plan : Nat → Option Fault) (c : Call)
+    (hc : c ∈ (run env (writeStream cfg cache fl key o chunks) fs).2.2 ∨
+          c ∈ (runFault env plan (writeStream cfg cache fl key o chunks) fs 0).2.2)
+    (fs' : FS) (q : Path) (hq : q ∈ c.fileTargets fs') (ha : IsAddr cache q) :
+    ∃ s, c = .rename s q := by
+  have hin : InArea cache dContent q := by
+    obtain ⟨a, hexd, _, rfl⟩ := ha; exact inArea_addr cache a hexd
+  rcases hc with hc | hc
+  · exact AllCalls.trace (writeStream_only_rename_publishes cfg cache fl key o chunks) env fs c hc
+      fs' q hq hin
+  · exact AllCalls.traceFault (writeStream_only_rename_publishes cfg cache fl key o chunks) env
+      plan fs 0 c hc fs' q hq hin
 
 end Cacache.C03
